@@ -4,11 +4,15 @@
 package c05
 
 import (
+	"crypto/ecdsa"
+	"crypto/elliptic"
+	"crypto/x509"
 	"encoding/json"
 	"fmt"
 	"strings"
 
 	"github.com/hashicorp/nodeenrollment"
+	storeonce "github.com/hashicorp/nodeenrollment/storage/testing"
 	nodetls "github.com/hashicorp/nodeenrollment/tls"
 	"github.com/hashicorp/nodeenrollment/types"
 	"google.golang.org/protobuf/proto"
@@ -18,7 +22,7 @@ import (
 )
 
 type kase struct {
-	Path    string   `json:"path"`    // keyid | nodeid | nodeid-emptyset | nodeid-plain
+	Path    string   `json:"path"`    // keyid | nodeid | nodeid-emptyset | nodeid-plain | nodeid-storeonce
 	List    []string `json:"list"`    // records under the node id, in lookup order (R1 = K1's record, ...)
 	Claimed string   `json:"claimed"` // certificate key named in the request
 	Nonce   string   `json:"nonce"`   // K1 | K2 | U | missing | empty-nonce
@@ -30,6 +34,10 @@ type kase struct {
 type world struct {
 	keys map[string]*harness.CertKey
 	base *harness.MemStore // roots only
+	// a certificate key that is not an ed25519 key (record RE / claimed key KE):
+	// such a record can verify nothing
+	ecPkix  []byte
+	ecKeyId string
 }
 
 func newWorld(seed int64) *world {
@@ -39,6 +47,12 @@ func newWorld(seed int64) *world {
 	}
 	w.base = harness.NewMemStore()
 	harness.InitRoots(w.base)
+	ek, err := ecdsa.GenerateKey(elliptic.P256(), harness.DetRand("c05-ecdsa"))
+	if err != nil {
+		panic(err)
+	}
+	w.ecPkix, _ = x509.MarshalPKIXPublicKey(&ek.PublicKey)
+	w.ecKeyId, _ = nodeenrollment.KeyIdFromPkix(w.ecPkix)
 	return w
 }
 
@@ -63,14 +77,25 @@ func permsOfSubsets(items []string) [][]string {
 
 func (w *world) one(k kase, r *engine.Report) (string, string) {
 	st := w.base.Clone()
-	for _, rn := range k.List {
+	record := func(rn, nodeId string) *types.NodeInformation {
+		if rn == "RE" {
+			return &types.NodeInformation{Id: w.ecKeyId, CertificatePublicKeyPkix: w.ecPkix, CertificatePublicKeyType: types.KEYTYPE_ED25519, NodeId: nodeId}
+		}
 		key := w.keys["K"+rn[1:]]
-		st.PutNodeInfo(&types.NodeInformation{Id: key.KeyId, CertificatePublicKeyPkix: key.Pkix, CertificatePublicKeyType: types.KEYTYPE_ED25519, NodeId: "node-X"})
-		st.NodeOrder = append(st.NodeOrder, key.KeyId)
+		return &types.NodeInformation{Id: key.KeyId, CertificatePublicKeyPkix: key.Pkix, CertificatePublicKeyType: types.KEYTYPE_ED25519, NodeId: nodeId}
+	}
+	for _, rn := range k.List {
+		ni := record(rn, "node-X")
+		st.PutNodeInfo(ni)
+		st.NodeOrder = append(st.NodeOrder, ni.Id)
+	}
+	claimedPkix := w.ecPkix
+	if k.Claimed != "KE" {
+		claimedPkix = w.keys[k.Claimed].Pkix
 	}
 	nonce := harness.Bytes("c05-nonce", 32)
 	req := &types.GenerateServerCertificatesRequest{
-		CertificatePublicKeyPkix: w.keys[k.Claimed].Pkix,
+		CertificatePublicKeyPkix: claimedPkix,
 		Nonce:                    nonce,
 		SkipVerification:         k.Skip,
 	}
@@ -100,11 +125,39 @@ func (w *world) one(k kase, r *engine.Report) (string, string) {
 	case "nodeid-plain":
 		req.NodeId = "node-X"
 		storage = harness.Plain{S: st}
+	case "nodeid-storeonce":
+		// the library's own store-once back end as the node-id loader; every
+		// record that is not in the list is registered under a node id that
+		// differs from the requested one in letter case only
+		req.NodeId = "node-X"
+		so, err := storeonce.New(harness.Ctx)
+		if err != nil {
+			panic(err)
+		}
+		roots, _ := types.LoadRootCertificates(harness.Ctx, st)
+		if err := roots.Store(harness.Ctx, so); err != nil {
+			panic(err)
+		}
+		in := map[string]bool{}
+		for _, rn := range k.List {
+			in[rn] = true
+			if err := so.Store(harness.Ctx, record(rn, "node-X")); err != nil {
+				panic(err)
+			}
+		}
+		for _, rn := range []string{"R1", "R2", "R3"} {
+			if !in[rn] {
+				if err := so.Store(harness.Ctx, record(rn, "NODE-x")); err != nil {
+					panic(err)
+				}
+			}
+		}
+		storage = so
 	}
 
 	// reference: which records does the lookup yield
 	var lookup []string
-	if k.Path == "nodeid" || k.Path == "nodeid-emptyset" {
+	if k.Path == "nodeid" || k.Path == "nodeid-emptyset" || k.Path == "nodeid-storeonce" {
 		lookup = k.List
 	} else {
 		for _, rn := range k.List {
@@ -203,9 +256,15 @@ func sigClass(s string, lookup []string) string {
 
 func cases(seed int64, emit func(kase)) {
 	lists := permsOfSubsets([]string{"R1", "R2", "R3"})
-	for _, path := range []string{"keyid", "nodeid", "nodeid-emptyset", "nodeid-plain"} {
+	// lists in which one record holds a key that is not an ed25519 key
+	for _, l := range permsOfSubsets([]string{"R1", "R2", "RE"}) {
+		if strings.Contains(strings.Join(l, ","), "RE") {
+			lists = append(lists, l)
+		}
+	}
+	for _, path := range []string{"keyid", "nodeid", "nodeid-emptyset", "nodeid-plain", "nodeid-storeonce"} {
 		for _, l := range lists {
-			for _, claimed := range []string{"K1", "U"} {
+			for _, claimed := range []string{"K1", "U", "KE"} {
 				for _, nonce := range []string{"K1", "K2", "U", "missing", "empty-nonce"} {
 					for _, state := range []string{"absent", "K1", "K2", "U", "unsigned"} {
 						for _, skip := range []bool{false, true} {
@@ -259,7 +318,7 @@ func init() {
 	engine.Register(&engine.CheckDef{
 		ID:    "C05",
 		Level: "exploration",
-		Rule: "full product: lookup path {key id, node id on a NodeIdLoader that reports an empty result as ErrNotFound / as an empty set, node id on a plain Storage} x every ordered subset of three records under the node id (16 lists) x claimed key {registered, unregistered} x nonce signer {K1, K2, unregistered, missing, empty nonce} x client state {absent, signed by K1 / K2 / unregistered, unsigned} x skip_verification {false,true} = 6400 calls of the real GenerateServerCertificates against a reference predicate; " +
+		Rule: "full product: lookup path {key id, node id on a NodeIdLoader that reports an empty result as ErrNotFound / as an empty set, node id on a plain Storage, node id on the library's store-once back end with the remaining records under a node id differing in letter case only} x every ordered subset of three records under the node id (16 lists) and of two records plus one whose stored key is not an ed25519 key (11 lists) x claimed key {registered, unregistered, the non-ed25519 key} x nonce signer {K1, K2, unregistered, missing, empty nonce} x client state {absent, signed by K1 / K2 / unregistered, unsigned} x skip_verification {false,true} = 20250 calls of the real GenerateServerCertificates against a reference predicate; " +
 			"distinct_nontrivial counts the cases (distinct by construction) with verification not waived",
 		Assumptions: []string{"a forged signature is a signature by another pool key or a missing one"},
 		Shards:      func(c *engine.Ctx) int { return 4 },
